@@ -88,7 +88,8 @@ func genRows(t *rapid.T, label string) int {
 }
 
 func genMapCfg(t *rapid.T, label string) Cfg {
-	return Cfg{Kind: "map", Full: rapid.Bool().Draw(t, label+"-full"), Rows: genRows(t, label+"-rows"), Direct: rapid.Bool().Draw(t, label+"-direct")}
+	return Cfg{Kind: "map", Full: rapid.Bool().Draw(t, label+"-full"), Rows: genRows(t, label+"-rows"), Direct: rapid.Bool().Draw(t, label+"-direct"),
+		Ext: rapid.IntRange(0, 3).Draw(t, label+"-ext") == 0}
 }
 
 func subsetP(t *rapid.T, xs []int, num, den int, label string) []int {
